@@ -558,7 +558,39 @@ def two_engines_case(fed):
     return None
 
 
+def closed_handler_engine():
+    """the application closes its (blocking) action handler and then lets the engine flush what is still queued: every
+    completed run still gets its complex event, its action execution and its action event (or the engine says so by
+    raising) - nothing is dropped silently.  -> failure text | None"""
+    import sim_engine as SE
+    p = G.pattern(1, G.assign(["R"], 0, "distinct"))
+    ed = dict(cfg=dict(phen=[(1, [p])], maxcache=0, idbase=1000), tr=0, td=0, tp=0, tf=1, early=True, local_only=True,
+              datagen=[(1, 71)], act=[(1, (1, True, 91))])
+    engine, handler, log = SE.make_engine(ed)
+    for _ in range(3):
+        engine.receiver.add_data(1)
+    engine.update()                      # three runs complete; the forwarder takes one complex event per cycle
+    handler.close()
+    raised = None
+    for _ in range(20):
+        try:
+            engine.update()
+        except Exception as ex:          # noqa
+            raised = type(ex).__name__
+            break
+    n = (len(log["completed"]), len(log["complex"]), len(log["execs"]), len(log["aevents"]))
+    if raised is None and not (n[0] == n[1] == n[2] == n[3]):
+        return ("handler closed while complex events were waiting in the forwarder, engine flushed without any error: %d completed "
+                "runs, %d complex events, %d action executions, %d action events" % n)
+    return None
+
+
 def setup_half(ctx, res):
+    bad = closed_handler_engine()
+    res.note_case(("closed-handler-engine",), True)
+    if bad:
+        res.failures.append(dict(signature="action-dropped-after-handler-close", what=bad, detail=None,
+                                 case=dict(closed_handler_engine=True)))
     for fed in ("north", "south"):
         bad = two_engines_case(fed)
         res.note_case(("two-engines", fed), True)
@@ -614,6 +646,10 @@ def replay(obj):
     if not case:
         print(obj)
         return 0
+    if case.get("closed_handler_engine"):
+        bad = closed_handler_engine()
+        print("oracle        :", bad or "every completed run got its complex event, execution and action event")
+        return 1 if bad else 0
     if case.get("two_engines"):
         bad = two_engines_case(case["fed"])
         print("oracle        :", bad or "the engine that was not fed stayed idle; the fed one: one complex event, execution, action event per run")
